@@ -7,7 +7,7 @@
 From Coq Require Import NArith List String Bool.
 From Coq Require Import Strings.Byte.
 From PDL Require Import Base.Bits Base.Outcome Lang.Ast Lang.Sexp Analyzer.Schema Rust.Decode Rust.Inherit
-     Proofs.InheritLaws.
+     Rust.Encode Proofs.InheritLaws Proofs.SpecializeLaws.
 Import ListNotations.
 
 Theorem C06_try_from_fails_iff_constraint_violated_partial :
@@ -37,3 +37,76 @@ Theorem C06_specialize_never_returns_a_child_with_a_violated_constraint_partial 
     ~ Exists (violated fl (iter_fields fl d) (iter_constraints fl d) pobj) (decl_constraints c).
 Proof. exact specialize_respects_constraints. Qed.
 Print Assumptions C06_specialize_never_returns_a_child_with_a_violated_constraint_partial.
+
+(** specialize() CHARACTERISED (Proofs/SpecializeLaws.v).  [all_cases] is the list of cases the
+    generator gathers: per direct child, one case for every declaration of the child's
+    subtree, carrying the constraints on the parent's data fields accumulated along the way
+    and the constant size; [case_matches] says the case is kept by the generator, its
+    constraints hold of the parent's values and, when sizes are matched, the payload length
+    is the case's size. *)
+
+(** None: no gathered case matches the parent. *)
+Theorem C06_specialize_none_only_when_no_case_matches :
+  forall fuel oc fl sch d pobj,
+    rust_specialize fuel oc fl sch d pobj = Ok None ->
+    exists cases, all_cases fl sch d = Some cases /\
+      forall c, In c cases ->
+        ~ case_matches (pval fl d pobj) (with_size_of cases) (obj_payload_len pobj) c.
+Proof. exact specialize_none. Qed.
+Print Assumptions C06_specialize_none_only_when_no_case_matches.
+
+(** ... and conversely a matching case never yields None (a child, the child decoder's
+    error, or a refusal of the generator). *)
+Theorem C06_specialize_not_none_when_a_case_matches :
+  forall fuel oc fl sch d pobj cases c,
+    all_cases fl sch d = Some cases -> In c cases ->
+    case_matches (pval fl d pobj) (with_size_of cases) (obj_payload_len pobj) c ->
+    rust_specialize fuel oc fl sch d pobj <> Ok None.
+Proof. exact specialize_not_none. Qed.
+Print Assumptions C06_specialize_not_none_when_a_case_matches.
+
+(** Some child: a case of THAT child's subtree matches (constraints of the child or of a
+    descendant), it is the least matching child in name order, and the value is what
+    Child::try_from(parent) returns. *)
+Theorem C06_specialize_returns_a_matching_child :
+  forall fuel oc fl sch d pobj cid v,
+    rust_specialize fuel oc fl sch d pobj = Ok (Some (cid, v)) ->
+    exists cases, all_cases fl sch d = Some cases /\
+      (exists c, In c cases /\ sc_id c = cid /\
+                 case_matches (pval fl d pobj) (with_size_of cases) (obj_payload_len pobj) c) /\
+      (forall c', In c' cases ->
+                  case_matches (pval fl d pobj) (with_size_of cases) (obj_payload_len pobj) c' ->
+                  sc_id c' = cid \/ str_ltb cid (sc_id c') = true) /\
+      exists cd, lookup_decl fl cid = Some cd /\ try_from_parent fuel oc fl sch cd d pobj = Ok v.
+Proof. exact specialize_some. Qed.
+Print Assumptions C06_specialize_returns_a_matching_child.
+
+(** EXACTLY WHEN: if the generator accepted the cases, sizes are not needed, all cases
+    constrain the same fields and the parent has a value for each of them, then a case whose
+    constraints hold determines the result: specialize is that child's TryFrom (the child, or
+    its decoder's error). *)
+Theorem C06_specialize_exactly_when_constraints_match :
+  forall fuel oc fl sch d pobj cases c,
+    all_cases fl sch d = Some cases ->
+    check_cases (case_ids cases) true cases = true ->
+    with_size_of cases = false ->
+    (forall c1 c2, In c1 cases -> In c2 cases -> same_keys c1 c2) ->
+    (forall id, In id (case_ids cases) -> pval fl d pobj id <> None) ->
+    In c cases -> sc_constraints c <> [] -> case_holds (pval fl d pobj) c ->
+    rust_specialize fuel oc fl sch d pobj = arm_result fuel oc fl sch d pobj (sc_id c).
+Proof. exact specialize_exactly_when. Qed.
+Print Assumptions C06_specialize_exactly_when_constraints_match.
+
+(** The full "exactly when" of the property is FALSE of the faithful model for a child that
+    constrains no field of its parent (and whose size is not needed to tell children apart):
+    the generator drops its case, specialize() answers None although Child::try_from(parent)
+    succeeds.  Reproduced on /repo (`packet P { k : 8, _payload_ }  packet C : P { a : 8 }`,
+    input 01 05: specialize() = Ok(None), C::try_from = Ok): listed finding F64. *)
+Theorem C06_unconstrained_only_child_refuted :
+  rust_specialize 10 false Unconstrained.fl Unconstrained.sch Unconstrained.P Unconstrained.pobj = Ok None /\
+  exists v, try_from_parent 10 false Unconstrained.fl Unconstrained.sch Unconstrained.C Unconstrained.P Unconstrained.pobj = Ok v.
+Proof.
+  destruct Unconstrained.unconstrained_child_skipped as [_ [_ [H1 H2]]].
+  split; [exact H1 | eexists; exact H2].
+Qed.
+Print Assumptions C06_unconstrained_only_child_refuted.
